@@ -608,117 +608,7 @@ func propC17(c *Ctx) {
 	// the verifier hands the derivation functions the claim's fields verbatim
 	c.Rule("C17.R5", func() { verbatimLeaf(c, "C17.R5") })
 
-	c.Rule("C17.R2", func() {
-		fn := c.Func(hostTypes, "GenerateNodeHash")
-		o := c.Ob("C17.R2", "GenerateNodeHash: compare<0 -> sha3(a‖b); compare>=0 -> sha3(b‖a); outcomes exhaustive")
-		seen := map[string]bool{}
-		for _, p := range c.Paths(fn, PO{Params: []string{"a", "b"}, Visits: 10}) {
-			o.Paths++
-			o.Facts += p.NFacts()
-			if p.Panic || len(p.Ret) != 1 {
-				o.Fail(c.W.Pos(fn.Pos()), "panic or arity", nil)
-				continue
-			}
-			o.Sites++
-			// the comparison outcomes {-1,0,1} consistent with every fact this path carries about
-			// bytes.Compare(a, b) (equalities of a switch, `< 0`, `>= 0`, `== -1`, ... alike)
-			var outcomes []string
-			for _, v := range []int64{-1, 0, 1} {
-				consistent := true
-				for i := range p.Events {
-					ev := &p.Events[i]
-					if ev.Kind != EvFact {
-						continue
-					}
-					rf, ok := factRel(ev.Cond, ev.Pol)
-					if !ok {
-						continue
-					}
-					x, y, r := rf.X, rf.Y, rf.Rel
-					if y.Key() == "bytes.Compare(a, b)" {
-						x, y, r = y, x, flipRel(r)
-					}
-					cst, isC := y.Int()
-					if x.Key() != "bytes.Compare(a, b)" || !isC {
-						continue
-					}
-					var have uint8 = rEQ
-					if v < cst {
-						have = rLT
-					} else if v > cst {
-						have = rGT
-					}
-					if r&have == 0 {
-						consistent = false
-					}
-				}
-				if consistent {
-					outcomes = append(outcomes, strconv.FormatInt(v, 10))
-				}
-			}
-			got, err := layoutOf(p.Ret[0])
-			if err != nil {
-				o.Undecide("layout not derivable: " + err.Error())
-				continue
-			}
-			want := ""
-			switch strings.Join(outcomes, ",") {
-			case "-1":
-				want = "sha3(raw(a)‖raw(b))"
-			case "0", "1", "0,1":
-				want = "sha3(raw(b)‖raw(a))"
-			default:
-				o.Fail(c.W.Pos(fn.Pos()), "a returning path is not determined by the comparison outcome (outcomes "+strings.Join(outcomes, ",")+", result "+got+")", c.Dump(p, -1))
-				continue
-			}
-			for _, oc := range outcomes {
-				seen[oc] = true
-			}
-			if got != want {
-				o.Fail(c.W.Pos(fn.Pos()), "outcome "+strings.Join(outcomes, ",")+" hashes "+got+", want "+want, c.Dump(p, -1))
-			}
-		}
-		for _, v := range []string{"-1", "0", "1"} {
-			if !seen[v] {
-				o.Fail(c.W.Pos(fn.Pos()), "comparison outcome "+v+" has no hashing path", nil)
-			}
-		}
-		// fold
-		fr := c.Func(hostTypes, "GenerateRootHashFromProofs")
-		o2 := c.Ob("C17.R2", "GenerateRootHashFromProofs: left fold of GenerateNodeHash over proofs[0..n) from the leaf")
-		for _, p := range c.Paths(fr, PO{Params: []string{"data", "proofs"}, Visits: 4}) {
-			o2.Paths++
-			o2.Facts += p.NFacts()
-			if p.Panic || len(p.Ret) != 1 {
-				o2.Fail(c.W.Pos(fr.Pos()), "panic or arity", nil)
-				continue
-			}
-			o2.Sites++
-			// count iterations from the loop facts
-			k := 0
-			for p.HasFact(len(p.Events), func(at *Term, pol bool) bool {
-				return pol && at.Op == "bin" && at.Name == "<" && at.Args[0].Key() == strconv.Itoa(k) && at.Args[1].Key() == "builtin.len(proofs)"
-			}) {
-				k++
-			}
-			exit := p.HasFact(len(p.Events), func(at *Term, pol bool) bool {
-				return !pol && at.Op == "bin" && at.Name == "<" && at.Args[0].Key() == strconv.Itoa(k) && at.Args[1].Key() == "builtin.len(proofs)"
-			})
-			if !exit {
-				o2.Fail(c.W.Pos(fr.Pos()), fmt.Sprintf("returns after %d iterations without having reached the end of the proof list", k), c.Dump(p, -1))
-			}
-			want := "data"
-			for i := 0; i < k; i++ {
-				want = fmt.Sprintf("ophost/types.GenerateNodeHash(%s[:], proofs[%d])", want, i)
-			}
-			if got := p.Ret[0].Key(); got != want {
-				o2.Fail(c.W.Pos(fr.Pos()), "after "+strconv.Itoa(k)+" items the result is "+trunc(got, 200)+", want "+want, c.Dump(p, -1))
-			}
-		}
-		if o2.Sites < 3 {
-			o2.Fail(c.W.Pos(fr.Pos()), "fewer than 3 iteration counts examined", nil)
-		}
-	})
+	c.Rule("C17.R2", func() { nodeHashAndFold(c, "C17.R2") })
 
 	c.Rule("C17.R3", func() {
 		for _, name := range sortedKeys(c17Params) {
@@ -940,3 +830,119 @@ func sameLen(a, b ssa.Value) bool {
 	}
 	return false
 }
+
+// nodeHashAndFold: the node hash covers all three comparison outcomes (equal nodes hash
+// b‖a = a‖a: a sibling-less node is paired with itself) and the root is the left fold over the
+// proof items.  Shared by C17 (formats), and C04 (a withdrawal at any position of a tree of
+// any size stays provable).
+func nodeHashAndFold(c *Ctx, rule string) {
+		fn := c.Func(hostTypes, "GenerateNodeHash")
+		o := c.Ob(rule, "GenerateNodeHash: compare<0 -> sha3(a‖b); compare>=0 -> sha3(b‖a); outcomes exhaustive")
+		seen := map[string]bool{}
+		for _, p := range c.Paths(fn, PO{Params: []string{"a", "b"}, Visits: 10}) {
+			o.Paths++
+			o.Facts += p.NFacts()
+			if p.Panic || len(p.Ret) != 1 {
+				o.Fail(c.W.Pos(fn.Pos()), "panic or arity", nil)
+				continue
+			}
+			o.Sites++
+			// the comparison outcomes {-1,0,1} consistent with every fact this path carries about
+			// bytes.Compare(a, b) (equalities of a switch, `< 0`, `>= 0`, `== -1`, ... alike)
+			var outcomes []string
+			for _, v := range []int64{-1, 0, 1} {
+				consistent := true
+				for i := range p.Events {
+					ev := &p.Events[i]
+					if ev.Kind != EvFact {
+						continue
+					}
+					rf, ok := factRel(ev.Cond, ev.Pol)
+					if !ok {
+						continue
+					}
+					x, y, r := rf.X, rf.Y, rf.Rel
+					if y.Key() == "bytes.Compare(a, b)" {
+						x, y, r = y, x, flipRel(r)
+					}
+					cst, isC := y.Int()
+					if x.Key() != "bytes.Compare(a, b)" || !isC {
+						continue
+					}
+					var have uint8 = rEQ
+					if v < cst {
+						have = rLT
+					} else if v > cst {
+						have = rGT
+					}
+					if r&have == 0 {
+						consistent = false
+					}
+				}
+				if consistent {
+					outcomes = append(outcomes, strconv.FormatInt(v, 10))
+				}
+			}
+			got, err := layoutOf(p.Ret[0])
+			if err != nil {
+				o.Undecide("layout not derivable: " + err.Error())
+				continue
+			}
+			want := ""
+			switch strings.Join(outcomes, ",") {
+			case "-1":
+				want = "sha3(raw(a)‖raw(b))"
+			case "0", "1", "0,1":
+				want = "sha3(raw(b)‖raw(a))"
+			default:
+				o.Fail(c.W.Pos(fn.Pos()), "a returning path is not determined by the comparison outcome (outcomes "+strings.Join(outcomes, ",")+", result "+got+")", c.Dump(p, -1))
+				continue
+			}
+			for _, oc := range outcomes {
+				seen[oc] = true
+			}
+			if got != want {
+				o.Fail(c.W.Pos(fn.Pos()), "outcome "+strings.Join(outcomes, ",")+" hashes "+got+", want "+want, c.Dump(p, -1))
+			}
+		}
+		for _, v := range []string{"-1", "0", "1"} {
+			if !seen[v] {
+				o.Fail(c.W.Pos(fn.Pos()), "comparison outcome "+v+" has no hashing path", nil)
+			}
+		}
+		// fold
+		fr := c.Func(hostTypes, "GenerateRootHashFromProofs")
+		o2 := c.Ob(rule, "GenerateRootHashFromProofs: left fold of GenerateNodeHash over proofs[0..n) from the leaf")
+		for _, p := range c.Paths(fr, PO{Params: []string{"data", "proofs"}, Visits: 4}) {
+			o2.Paths++
+			o2.Facts += p.NFacts()
+			if p.Panic || len(p.Ret) != 1 {
+				o2.Fail(c.W.Pos(fr.Pos()), "panic or arity", nil)
+				continue
+			}
+			o2.Sites++
+			// count iterations from the loop facts
+			k := 0
+			for p.HasFact(len(p.Events), func(at *Term, pol bool) bool {
+				return pol && at.Op == "bin" && at.Name == "<" && at.Args[0].Key() == strconv.Itoa(k) && at.Args[1].Key() == "builtin.len(proofs)"
+			}) {
+				k++
+			}
+			exit := p.HasFact(len(p.Events), func(at *Term, pol bool) bool {
+				return !pol && at.Op == "bin" && at.Name == "<" && at.Args[0].Key() == strconv.Itoa(k) && at.Args[1].Key() == "builtin.len(proofs)"
+			})
+			if !exit {
+				o2.Fail(c.W.Pos(fr.Pos()), fmt.Sprintf("returns after %d iterations without having reached the end of the proof list", k), c.Dump(p, -1))
+			}
+			want := "data"
+			for i := 0; i < k; i++ {
+				want = fmt.Sprintf("ophost/types.GenerateNodeHash(%s[:], proofs[%d])", want, i)
+			}
+			if got := p.Ret[0].Key(); got != want {
+				o2.Fail(c.W.Pos(fr.Pos()), "after "+strconv.Itoa(k)+" items the result is "+trunc(got, 200)+", want "+want, c.Dump(p, -1))
+			}
+		}
+		if o2.Sites < 3 {
+			o2.Fail(c.W.Pos(fr.Pos()), "fewer than 3 iteration counts examined", nil)
+		}
+	}
